@@ -84,7 +84,13 @@ func buildManager(g graph, initFn func(i int) func() (services.Service, error), 
 
 func checkInit(run *vt.Run, c vt.CaseID, g graph, targets []int, withService uint64, rng *rand.Rand) {
 	var order []int
+	// about a quarter of the modules are registered without an init function (legal: pure grouping modules); they
+	// are never "initialised" themselves but still order what is above and below them
+	nilInit := func(i int) bool { return vt.Mix(uint64(c.Idx), uint64(i), uint64(len(targets)), 31)%4 == 0 }
 	mm, err := buildManager(g, func(i int) func() (services.Service, error) {
+		if nilInit(i) {
+			return nil
+		}
 		return func() (services.Service, error) {
 			order = append(order, i)
 			if withService>>i&1 == 1 {
@@ -122,12 +128,14 @@ func checkInit(run *vt.Run, c vt.CaseID, g graph, targets []int, withService uin
 	d := map[string]any{"graph": g, "targets": tn, "init_order": order}
 	for i := 0; i < g.N; i++ {
 		switch {
+		case nilInit(i):
+			// nothing to run
 		case needed[i] && cnt[i] != 1:
 			run.Violation(c, "init/not-exactly-once", fmt.Sprintf("needed module %s initialised %d times", name(i), cnt[i]), d)
 		case !needed[i] && cnt[i] != 0:
 			run.Violation(c, "init/unneeded-module-initialised", fmt.Sprintf("module %s is not needed but was initialised", name(i)), d)
 		}
-		if needed[i] {
+		if needed[i] && !nilInit(i) {
 			for dep := range g.reach(i) {
 				if cnt[dep] == 1 && pos[dep] > pos[i] {
 					run.Violation(c, "init/before-dependency", fmt.Sprintf("module %s initialised before its dependency %s", name(i), name(dep)), d)
